@@ -180,6 +180,9 @@ func xmlEscapeText(s string, mode int) string {
 			}
 		case '\t':
 			sb.WriteString("&#9;")
+		case '\n':
+			// a line feed inside a title or copyright: as such, or as a character reference
+			sb.WriteString([]string{"\n", "&#10;", "&#xA;"}[mode%3])
 		default:
 			if mode > 0 && c > 0x7f && c%3 == 0 {
 				fmt.Fprintf(&sb, "&#x%X;", c)
@@ -830,8 +833,8 @@ func genTTMLTime(t *rapid.T, frameRate, tickRate int64, msGrid bool, label strin
 func genTTMLDoc(t *rapid.T, write bool) ttmlDoc {
 	d := ttmlDoc{
 		Lang:      rapid.SampledFrom([]string{"", "en", "fr", "zh", "ja", "no", "en-GB", "de", "fr-CA"}).Draw(t, "lang"),
-		Title:     rapid.SampledFrom([]string{"", "", "Title", "A & B <c>", "标题"}).Draw(t, "title"),
-		Copyright: rapid.SampledFrom([]string{"", "", "(c) 2020 \"X\"", "Copyright"}).Draw(t, "copyright"),
+		Title:     rapid.SampledFrom([]string{"", "", "Title", "A & B <c>", "标题", "Line one\nline two", "two  spaces and\ta tab"}).Draw(t, "title"),
+		Copyright: rapid.SampledFrom([]string{"", "", "(c) 2020 \"X\"", "Copyright", "(c) A\n(c) B\n"}).Draw(t, "copyright"),
 	}
 	if !write {
 		d.FrameRate = rapid.SampledFrom([]int64{0, 0, 24, 25, 30, 50, 60}).Draw(t, "framerate")
